@@ -41,9 +41,12 @@ ING = {
     "t14": dict(rules=[R(H2, P("/Up", "s2", "exact"), P("/Pre", "s1", "prefix"))]),      # upper-case letters in exact / prefix paths (C03)
     "t15": dict(rules=[R("", P("/", "s1", "exact"))]),                                    # host-less exact root (C03)
     "t16": dict(rules=[], **{"def": P("", "s2")}),                                         # spec.defaultBackend only (C03)
+    "t17": dict(rules=[R("*.h1.local", P("/a", "s1", "prefix"), P("/x", "s2", "exact"))]),  # wildcard host, prefix and exact paths (C03)
+    "t18": dict(rules=[R("a.h1.local", P("/a/b", "s2", "prefix"))]),                        # a host the wildcard covers, with one path of its own (C03)
 }
 CORE_NOWILD = ["t%d" % i for i in range(1, 13)]
 CORE_ROUTING = CORE_NOWILD + ["t14", "t15", "t16"]
+CORE_WILD = CORE_ROUTING + ["t13", "t17", "t18"]
 
 EPS = {  # endpoint sets: (ready, notready)
     "e0": ([], []),
@@ -413,7 +416,8 @@ def random_tcpcm_history(rng, hid, steps=6):
 
 REQ_PATHS = ["/", "/a", "/a/", "/a/b", "/a/b/c", "/ab", "/A", "/x", "/Up", "/up", "/Pre/x", "/pre/x"]
 REQ_SNI = [(H1, ""), (H2, ""), ("a.h1.local", "*.h1.local"), ("b.a.h1.local", ""), ("x.local", ""), ("h1.local.x", "")]
-REQ_HOSTS = [(H1, H1), (H2, H2), (H1, "H1.LOCAL"), ("x.local", "x.local")]
+REQ_HOSTS = [(H1, H1), (H2, H2), (H1, "H1.LOCAL"), ("x.local", "x.local"), ("a.h1.local", "a.h1.local"), ("b.a.h1.local", "b.a.h1.local")]
+REQ_WILD = {"a.h1.local": "*.h1.local"}     # the wildcard hostname covering a request host (one label replaced)
 
 
 def _chars(s):
@@ -476,7 +480,7 @@ def tla_universe():
             + j + "OTHER -> {}", "",
             "PathChars(p) ==\n    CASE " + j.join('p = "%s" -> %s' % (pp, _chars(pp)) for pp in sorted(_all_paths())) + j + "OTHER -> <<>>", "",
             "ReqPaths == <<%s>>" % ", ".join(_chars(pp) for pp in REQ_PATHS), "",
-            "ReqHosts == <<%s>>" % ", ".join('[name |-> "%s", chars |-> %s]' % (n, _chars(c)) for n, c in REQ_HOSTS), "",
+            "ReqHosts == <<%s>>" % ", ".join('[name |-> "%s", chars |-> %s, wild |-> "%s"]' % (n, _chars(c), REQ_WILD.get(n, "")) for n, c in REQ_HOSTS), "",
             "ReqSNI == <<%s>>" % ", ".join('[name |-> "%s", chars |-> %s, wild |-> "%s"]' % (n, _chars(n), w) for n, w in REQ_SNI), "",
             "AllTmplIds == {%s}" % ", ".join('"%s"' % t for t in ING), "",
             "============================================================================="]
